@@ -65,7 +65,8 @@ LcgSeq(s, n) == IF n = 0 THEN <<>> ELSE LET y == LcgNext(s) IN <<y>> \o LcgSeq(y
 \* through a non-linear mix of the state (all products stay below 2^27)
 Mix(y) == ((((y % 1021) + 1) * ((y \div 61) + 3)) + (y \div 7) * 13 + y) % 65521
 Pick(alpha, y) == alpha[((Mix(y) \div 3) % Len(alpha)) + 1]
-Start(idx) == LcgIter((((Seed % 65536) * 7919 + idx * 257) % 65536) + 1, 3)
+\* idx < 2^31; every term stays below 2^30
+Start(idx) == LcgIter((((Seed % 65536) * 7919 + (idx % 65521) * 257 + (idx \div 65521) * 12345) % 65536) + 1, 3)
 
 Fam(sch) == CASE sch \in {"blast", "svd", "gmd"} -> 1
               [] sch = "mrc" -> 2  [] sch = "mrt" -> 3  [] OTHER -> 4
